@@ -3,7 +3,7 @@
    /repo (File::createObject, the ObjectType enum, the documented table in File.h, every
    constructor and every member initialiser). *)
 From VB Require Import Base IR Sem Tables.
-From VB Require Import Classes Consts C17.
+From VB Require Import Classes Consts Common C17.
 Local Open Scope Z_scope.
 
 (* For EVERY type code (all integers, not only 0..255): the factory yields nothing exactly where
